@@ -49,7 +49,7 @@ func keyAgree(a, b interface{}, label string) {
 	nd.Reach("end")
 }
 
-//verif:harness props=C10 tier=quick split=8 bounds="index keys of two non-NaN float64 (all bit patterns incl. -0.0, +-Inf, subnormals)"
+//verif:harness props=C10 tier=quick bounds="index keys of two non-NaN float64 (all bit patterns incl. -0.0, +-Inf, subnormals)"
 func H_C10_key_ff() {
 	keyAgree(nd.Float64("a"), nd.Float64("b"), "float")
 }
@@ -70,13 +70,13 @@ func H_C10_key_time_bool() {
 	keyAgree(ref.Value("a", o), ref.Value("b", o), "time-bool-nil")
 }
 
-//verif:harness props=C10 tier=quick split=12 bounds="index keys across ranks: any two of nil,float64,string<=1,bool,time>=1970,int64 from boundary set; rank digit decides"
+//verif:harness props=C10 tier=quick bounds="index keys across ranks: any two of nil,float64,string<=1,bool,time>=1970,int64 from boundary set; rank digit decides"
 func H_C10_key_cross() {
 	o := ref.Opts{Kinds: ref.KNil | ref.KFloat | ref.KString | ref.KBool | ref.KTime | ref.KInt, MaxStr: 1, TimeKey: true, SmallInts: true}
 	keyAgree(ref.Value("a", o), ref.Value("b", o), "cross")
 }
 
-//verif:harness props=C10 tier=thorough split=3 bounds="index keys of int64/uint64 within 2^53 and float64, all kind pairs (the property's stated key domain for numbers)"
+//verif:harness props=C10 tier=thorough bounds="index keys of int64/uint64 within 2^53 and float64, all kind pairs (the property's stated key domain for numbers)"
 func H_C10_key_num() {
 	o := ref.Opts{Kinds: ref.KInt | ref.KUint | ref.KFloat, IntSafe: true}
 	keyAgree(ref.Value("a", o), ref.Value("b", o), "number")
@@ -89,7 +89,7 @@ func H_C10_key_ii() {
 	keyAgree(a, b, "int")
 }
 
-//verif:harness props=C10 tier=thorough split=4 bounds="index keys of arrays/objects with <=1 element (nil,float64,string<=1,bool) and floats"
+//verif:harness props=C10 tier=thorough bounds="index keys of arrays/objects with <=1 element (nil,float64,string<=1,bool) and floats"
 func H_C10_key_containers() {
 	o := ref.Opts{Kinds: ref.KArray | ref.KObject | ref.KFloat | ref.KNil, ElemKinds: ref.KNil | ref.KFloat | ref.KString | ref.KBool, MaxStr: 1, MaxElems: 1}
 	keyAgree(ref.Value("a", o), ref.Value("b", o), "container")
